@@ -61,6 +61,15 @@ def property_on_impl(ant, srcs, c):
             tot += mk.current
         if max(abs(tot - m0.current)) > tol * scale:
             return 'superposition of single-source responses deviates by %.3g' % (max(abs(tot - m0.current)) / scale)
+        # each source really alone (nothing else registered), and the sources registered in another order
+        tot = np.zeros(len(m0.pulses), dtype=complex)
+        for p, v in srcs:
+            tot += solve_with(ant, [(p, v)]).current
+        if max(abs(tot - m0.current)) > tol * scale:
+            return 'the response to all sources deviates by %.3g from the sum of the responses to each source alone' % (max(abs(tot - m0.current)) / scale)
+        mr = solve_with(ant, list(reversed(srcs)))
+        if max(abs(mr.current - m0.current)) > tol * scale:
+            return 'currents depend on the order in which the sources are registered (%.3g)' % (max(abs(mr.current - m0.current)) / scale)
     for s in m0.sources:
         i = m0.current[s.idx]
         if abs(s.impedance - s.voltage / i) > 1e-9 * abs(s.impedance):
